@@ -573,9 +573,20 @@ pub enum SV {
     Val(V),
 }
 
+thread_local! {
+    /// the runtime's reading: a missing property and `undefined` are one and the same (a validator is handed `input[k]`).
+    /// When set, both evaluators read `Absent` and `Undefined` as one value that belongs to a type if either does.
+    pub static LOOSE_ABSENT: std::cell::Cell<bool> = const { std::cell::Cell::new(false) };
+}
 pub fn sem_mem(ctx: &SemTypeContext, s: &SemType, v: &SV, fuel: u32) -> Result<bool, String> {
     if fuel == 0 {
         return Err("fuel".into());
+    }
+    if LOOSE_ABSENT.with(|c| c.get()) && matches!(v, SV::Absent | SV::Undefined) {
+        LOOSE_ABSENT.with(|c| c.set(false));
+        let r = sem_mem(ctx, s, &SV::Absent, fuel).and_then(|a| sem_mem(ctx, s, &SV::Undefined, fuel).map(|b| a || b));
+        LOOSE_ABSENT.with(|c| c.set(true));
+        return r;
     }
     let tag = match v {
         SV::Absent => SubTypeTag::OptionalProp,
@@ -704,7 +715,7 @@ pub fn runtype_mem(defs: &BTreeMap<RuntypeUUID, Runtype>, r: &Runtype, v: &SV, f
     };
     Ok(match &r.kind {
         RuntypeKind::Null => matches!(val, Some(V::Null)),
-        RuntypeKind::Undefined | RuntypeKind::Void => matches!(v, SV::Undefined),
+        RuntypeKind::Undefined | RuntypeKind::Void => matches!(v, SV::Undefined) || (matches!(v, SV::Absent) && LOOSE_ABSENT.with(|c| c.get())),
         RuntypeKind::Boolean => matches!(val, Some(V::Bool(_))),
         RuntypeKind::String => matches!(val, Some(V::Str(_))),
         RuntypeKind::Number => matches!(val, Some(V::Num(_))),
